@@ -1441,3 +1441,131 @@ func backwardCtl(v ssa.Value, visit func(ssa.Value) bool) {
 	}
 	walk(v)
 }
+
+// ---------------------------------------------------------------- path enumeration
+
+// PathResult is one acyclic path of a loop-free function to a return.
+type PathResult struct {
+	Facts   []Fact                  // symbolic branch decisions, in order
+	Ret     *ssa.Return
+	Resolve func(ssa.Value) ssa.Value // resolves phis along this path
+}
+
+// enumPaths enumerates every feasible acyclic path of fn, resolving phis by
+// the edge taken and following only the matching successor when a branch
+// condition resolves to a boolean constant on the path. Contradictory
+// decisions on the same SSA value are pruned. Returns false if the path
+// budget is exceeded or the function has a loop.
+func enumPaths(fn *ssa.Function, budget int, visit func(PathResult)) bool {
+	count := 0
+	ok := true
+	type env map[*ssa.Phi]ssa.Value
+	var dfs func(b, pred *ssa.BasicBlock, e env, facts []Fact, onPath map[*ssa.BasicBlock]bool)
+	resolveIn := func(e env) func(ssa.Value) ssa.Value {
+		var r func(v ssa.Value) ssa.Value
+		r = func(v ssa.Value) ssa.Value {
+			for i := 0; i < 64; i++ {
+				if p, isPhi := v.(*ssa.Phi); isPhi {
+					if x, has := e[p]; has {
+						v = x
+						continue
+					}
+				}
+				break
+			}
+			return v
+		}
+		return r
+	}
+	dfs = func(b, pred *ssa.BasicBlock, e env, facts []Fact, onPath map[*ssa.BasicBlock]bool) {
+		if !ok {
+			return
+		}
+		if onPath[b] {
+			ok = false // loop
+			return
+		}
+		onPath[b] = true
+		defer delete(onPath, b)
+		// resolve phis
+		e2 := e
+		if pred != nil {
+			idx := -1
+			for i, p := range b.Preds {
+				if p == pred {
+					idx = i
+				}
+			}
+			copied := false
+			for _, in := range b.Instrs {
+				phi, isPhi := in.(*ssa.Phi)
+				if !isPhi {
+					break
+				}
+				if !copied {
+					e2 = env{}
+					for k, v := range e {
+						e2[k] = v
+					}
+					copied = true
+				}
+				e2[phi] = resolveIn(e)(phi.Edges[idx])
+			}
+		}
+		res := resolveIn(e2)
+		last := b.Instrs[len(b.Instrs)-1]
+		switch t := last.(type) {
+		case *ssa.Return:
+			count++
+			if count > budget {
+				ok = false
+				return
+			}
+			visit(PathResult{Facts: append([]Fact(nil), facts...), Ret: t, Resolve: res})
+		case *ssa.If:
+			v, truth := res(t.Cond), true
+			for {
+				if u, isU := v.(*ssa.UnOp); isU && u.Op == token.NOT {
+					v, truth = res(u.X), !truth
+					continue
+				}
+				break
+			}
+			if cv, isC := v.(*ssa.Const); isC && cv.Value != nil && cv.Value.Kind() == constant.Bool {
+				taken := constant.BoolVal(cv.Value) == truth
+				if taken {
+					dfs(b.Succs[0], b, e2, facts, onPath)
+				} else {
+					dfs(b.Succs[1], b, e2, facts, onPath)
+				}
+				return
+			}
+			for _, want := range []bool{true, false} {
+				// want = value of the (un-negated) symbolic condition v
+				contradict := false
+				for _, f := range facts {
+					if f.Cond == v && f.Truth != want {
+						contradict = true
+					}
+				}
+				if contradict {
+					continue
+				}
+				nf := append(append([]Fact(nil), facts...), Fact{Cond: v, Truth: want, If: t})
+				if want == truth {
+					dfs(b.Succs[0], b, e2, nf, onPath)
+				} else {
+					dfs(b.Succs[1], b, e2, nf, onPath)
+				}
+			}
+		case *ssa.Jump:
+			dfs(b.Succs[0], b, e2, facts, onPath)
+		default:
+			// panic or other terminator: path ends without a return
+		}
+	}
+	dfs(fn.Blocks[0], nil, env{}, nil, map[*ssa.BasicBlock]bool{})
+	return ok
+}
+
+func constantInt64(v constant.Value) (int64, bool) { return constant.Int64Val(constant.ToInt(v)) }
